@@ -33,7 +33,7 @@ theorem keyChar_not_space {c : Char} (h : KeyChar c) : isSpace c = false := by
     Bool.and_eq_false_iff, decide_eq_false_iff_not]
   omega
 
-theorem lowerNat_ascii : ∀ n, n < 128 → lowerNat n = if 65 ≤ n ∧ n ≤ 90 then n + 32 else n := by decide
+theorem lowerNat_ascii : ∀ n, n < 128 → lowerNat n = if 65 ≤ n ∧ n ≤ 90 then n + 32 else n := by decide +kernel
 
 theorem lowerChar_ascii (c : Char) (h : c.toNat < 128) : Char.ofNat (lowerNat c.toNat) = asciiLower c := by
   rw [lowerNat_ascii _ h]
@@ -683,6 +683,26 @@ theorem C43_injection (unq : Str → Str) (pre post : List (List Pair)) (a b : L
   · intro F hF; exact lastValue_replace F a b p p' rfl hF
   · intro hF; exact dnsValues_replace a b p p' rfl hF
 
+/-- INJECTION, seen from the identity: text injected into a pair of the *selected* element whose key does not name
+the Subject cannot change the principal (which CN), and cannot change the URI / DNS SANs unless it is that field. -/
+theorem C43_injection_identity (unq : Str → Str) (a b : List Pair) (p : Pair) (t : Str) :
+    let p' : Pair := { p with quoted := true, value := t }
+    (fieldOfKey p.key ≠ some .subject →
+      principalOf (meaning unq (a ++ p' :: b)) = principalOf (meaning unq (a ++ p :: b))) ∧
+    (fieldOfKey p.key ≠ some .uri → (meaning unq (a ++ p' :: b)).uri = (meaning unq (a ++ p :: b)).uri) ∧
+    (fieldOfKey p.key ≠ some .dns → (meaning unq (a ++ p' :: b)).dns = (meaning unq (a ++ p :: b)).dns) := by
+  intro p'
+  refine ⟨?_, ?_, ?_⟩
+  · intro h
+    unfold principalOf meaning
+    simp only [lastValue_replace .subject a b p p' rfl h]
+  · intro h
+    unfold meaning
+    simp only [lastValue_replace .uri a b p p' rfl h]
+  · intro h
+    unfold meaning
+    simp only [dnsValues_replace a b p p' rfl h]
+
 /-- REJECTION: no header → `proxy_required`; a header that is non-empty as a string and parses to zero
 elements → `invalid_credential`; the literally empty string → `proxy_required` (DESIGN §7.3 accepts either). -/
 theorem C43_missing (unq : Str → Str) (hv : Bool) (sel : Str) :
@@ -779,6 +799,20 @@ example :
                       [{ key := "Subject".toList, quoted := true, value := "CN=proxy".toList }]]) =
       [{ hash := some "a".toList, subject := some "CN=x\",Hash=evil;Subject=\"CN=admin".toList },
        { subject := some "CN=proxy".toList }]:= by decide +kernel
+
+/-- the hypotheses of the round-trip theorems are satisfiable: this header is well formed -/
+example : WF [[{ key := "Subject".toList, quoted := true, value := "CN=x\",Hash=evil;Subject=\"CN=admin".toList }]] := by
+  intro ps hps
+  simp only [List.mem_singleton] at hps
+  subst hps
+  refine ⟨by simp, fun p hp => ?_⟩
+  simp only [List.mem_singleton] at hp
+  subst hp
+  exact wf_quoted _ _ (by decide)
+
+example : Balanced ',' "Subject=\"CN=x\\\",Hash=evil\"".toList := by unfold Balanced; decide +kernel
+example : ¬ Balanced ',' "Subject=\"CN=x".toList := by unfold Balanced; decide +kernel
+example : ¬ Balanced ',' "a,b".toList := by unfold Balanced; decide +kernel
 
 example : parse id ",, ,".toList = [] := by decide +kernel
 example : authenticate id false selFirst (some ",".toList) = .failure invalidCredential := by decide +kernel
